@@ -1,0 +1,40 @@
+//go:build verif
+
+// Contracts for the kvc verifier (see /verif/DESIGN.md). This file is comment-only:
+// with the "verif" build tag off it is invisible, with it on it adds no code.
+
+package cemi
+
+//@ func (info *Info) Unpack(data []byte) (n uint, err error)
+//@   props C01
+//@   assigns *info
+
+//@ func (body *UnsupportedMessage) Unpack(data []byte) (n uint, err error)
+//@   props C01
+//@   assigns *body, body.Data[0:]
+
+//@ func (lraw *LRaw) Unpack(data []byte) (n uint, err error)
+//@   props C01
+//@   assigns *lraw, (*lraw)[0:]
+
+//@ func (lbm *LBusmonInd) Unpack(data []byte) (n uint, err error)
+//@   props C01
+//@   assigns *lbm, (*lbm)[0:]
+
+//@ func unpackTransportUnit(data []byte, unit *TransportUnit) (n uint, err error)
+//@   props C01
+//@   decoder
+//@   requires unit != nil
+//@   ensures [consumed] err == nil ==> n <= uint(len(data))
+//@   assigns *unit
+
+//@ func (ldata *LData) Unpack(data []byte) (n uint, err error)
+//@   props C01
+//@   assigns *ldata
+
+//@ func Unpack(data []byte, message *Message) (n uint, err error)
+//@   props C01
+//@   decoder
+//@   requires message != nil
+//@   ensures [consumed] err == nil ==> n <= uint(len(data))
+//@   assigns *message
